@@ -10,6 +10,9 @@ Record obj := {
   o_pkg : nat;                (* package path *)
   o_name : nat;               (* Name() *)
   o_exported : bool;
+  o_dispatch : bool;          (* an unexported method that takes part in dynamic dispatch: a method of an interface type, or named like an
+                                 unexported method of a package-level interface of its package (reachable from other packages by converting
+                                 a value to the interface) *)
   o_path : option nat }.      (* objectpath of the object within its package; None = "" (no path) *)
 
 Definition location := (nat * nat * nat)%type.     (* file, line, column of a call-site key's Location *)
@@ -93,7 +96,7 @@ Definition site_of (v : view) (k : key) (deep : bool) : psite :=
      s_pkg := o_pkg o;
      s_repr := key_repr k;
      s_deep := deep;
-     (* visible downstream: exported, or a package-level type name (the only key whose object is a type name; the
+     (* visible downstream: exported, a dispatched unexported method, or a package-level type name (the only key whose object is a type name; the
         universes of the correspondence declare types at package level) -- repair of finding F79 *)
-     s_exported := o_exported o || match k with KTypeName _ => true | _ => false end;
+     s_exported := o_exported o || o_dispatch o || match k with KTypeName _ => true | _ => false end;
      s_path := o_path o |}.
